@@ -2,7 +2,7 @@
     Statements only; proofs in Txcache/Pool_proofs.v and Txcache/Pool_props.v. *)
 From Coq Require Import List NArith ZArith Lia Permutation.
 From Verif Require Import Base.BStr Txcache.TxTypes Txcache.SenderList Txcache.Selection Txcache.Pool
-  Txcache.SenderList_proofs Txcache.Pool_proofs Txcache.Pool_props.
+  Txcache.SenderList_proofs Txcache.Pool_proofs Txcache.Pool_props Txcache.Judge Txcache.Judge_proofs.
 Import ListNotations.
 Open Scope Z_scope.
 
@@ -47,6 +47,23 @@ Proof.
   apply (pool_for_sender_in _ _ _ (proj1 (proj2 HI))). auto.
 Qed.
 
+(** The tie.  The harness reads Keys, the per-sender lists and the three counters off the IMPLEMENTATION after every operation and hands
+    them to [Judge.c05_viewsb] (labels 30 and 32 of the pool component).  A verdict [true] means exactly the property statement on
+    those views: Keys without duplicates, the hashes in the lists without duplicates, the same set on both sides, every listed
+    transaction in the list of its own sender, CountTx = |Keys|, NumBytes = the sum of the Size fields, CountSenders = the number
+    of non-empty lists. *)
+Theorem C05_checker_sound : forall known v, c05_viewsb known v = true <-> c05_views known v.
+Proof. exact c05_viewsb_iff. Qed.
+
+(** ... and the judge never raises an alarm on the model: the model's own views of every reachable pool are accepted
+    (alpha: the senders the harness asks about, covering every sender of the pool; known: the transactions the history added) *)
+Theorem C05_checker_accepts_model : forall cfg ops alpha known,
+  hist_ok ops -> NoDup alpha ->
+  (forall a, In a (map fst (senders (run_pool cfg ops))) -> In a alpha) ->
+  (forall t, In t (added_txs ops) -> lookup_tx known (hash t) = Some t) ->
+  c05_viewsb known (views_of alpha (run_pool cfg ops)) = true.
+Proof. exact run_pool_views_accepted. Qed.
+
 (** non-vacuity: a history with same-nonce alternatives, eviction by count in two batches, a transaction larger
     than the per-sender byte limit, a removal and a Clear reaches non-trivial states *)
 Open Scope N_scope.
@@ -74,3 +91,5 @@ Print Assumptions C05_same_set.
 Print Assumptions C05_counters.
 Print Assumptions C05_empty_is_zero.
 Print Assumptions C05_no_orphan.
+Print Assumptions C05_checker_sound.
+Print Assumptions C05_checker_accepts_model.
